@@ -2325,6 +2325,14 @@ type hashConfig struct {
 	hashType utils.HashType
 }
 
+// errIncompleteBody: fewer bytes arrived than the request declared
+// (Content-Length / X-Amz-Decoded-Content-Length)
+var errIncompleteBody = s3err.APIError{
+	Code:           "IncompleteBody",
+	Description:    "You did not provide the number of bytes specified by the Content-Length HTTP header.",
+	HTTPStatusCode: http.StatusBadRequest,
+}
+
 func (p *Posix) UploadPart(ctx context.Context, input *s3.UploadPartInput) (*s3.UploadPartOutput, error) {
 	acct, ok := ctx.Value("account").(auth.Account)
 	if !ok {
@@ -2434,12 +2442,17 @@ func (p *Posix) UploadPart(ctx context.Context, input *s3.UploadPartInput) (*s3.
 		}
 	}
 
-	_, err = io.Copy(f, tr)
+	written, err := io.Copy(f, tr)
 	if err != nil {
 		if errors.Is(err, syscall.EDQUOT) {
 			return nil, s3err.GetAPIError(s3err.ErrQuotaExceeded)
 		}
 		return nil, fmt.Errorf("write part data: %w", err)
+	}
+	if input.ContentLength != nil && written != length {
+		// the temp file was preallocated to the declared length: a
+		// shorter body would be stored padded with zeros
+		return nil, errIncompleteBody
 	}
 	verifhook.At("part.body_done", "bucket", bucket, "part", partPath)
 
@@ -2898,12 +2911,17 @@ func (p *Posix) PutObject(ctx context.Context, po s3response.PutObjectInput) (s3
 		rdr = hashRdr
 	}
 
-	_, err = io.Copy(f, rdr)
+	written, err := io.Copy(f, rdr)
 	if err != nil {
 		if errors.Is(err, syscall.EDQUOT) {
 			return s3response.PutObjectOutput{}, s3err.GetAPIError(s3err.ErrQuotaExceeded)
 		}
 		return s3response.PutObjectOutput{}, fmt.Errorf("write object data: %w", err)
+	}
+	if po.ContentLength != nil && written != contentLength {
+		// the temp file was preallocated to the declared length: a
+		// shorter body would be stored padded with zeros
+		return s3response.PutObjectOutput{}, errIncompleteBody
 	}
 	verifhook.At("put.body_done", "path", name)
 
